@@ -1,6 +1,6 @@
 CONSTANTS
-  N = 3
-  Scripts <- Basic
+  N = 2
+  Scripts <- BadRefs
   Level = 2
   Enabled = TRUE
   EarlyExit = "code"
